@@ -2,7 +2,7 @@
 import itertools
 from fractions import Fraction
 
-from tverif.engine import contract, snapshot
+from tverif.engine import contract, snapshot, opaque_sampler
 from tverif.ring import Poly
 
 H = "tangelo/toolboxes/post_processing/histogram.py"
@@ -105,21 +105,23 @@ def o2(h, st):
 def o3_structures(tier):
     sts = []
     for n in (2, 3):
-        for idx in subsets(n, 2):
-            if not idx:
+        for idx0 in subsets(n, 2 if tier == "quick" else 3):
+            if not idx0:
                 continue
-            for bits in itertools.product("01", repeat=len(idx)):
-                sts.append({"n": n, "expected": {str(i): b for i, b in zip(idx, bits)}})
+            # the dictionary may be built in any key order
+            for idx in itertools.permutations(idx0):
+                for bits in itertools.product("01", repeat=len(idx)):
+                    sts.append({"n": n, "expected": [[i, b] for i, b in zip(idx, bits)]})
     return sts
 
 
 @contract("C18", "O3.post_select", targets=[(H, "Histogram.post_select"), (H, "filter_hist"), (PS, "post_select"), (H, "Histogram.frequencies"), (H, "Histogram.n_shots")],
           level="S", structures=o3_structures, native_samples=count_samples)
 def o3(h, st):
-    """kept keys are exactly those agreeing with expected_outcomes (positions removed); counts of kept keys unchanged;
+    """kept keys are exactly those agreeing with expected_outcomes - a dictionary built in ANY key order - (positions removed); counts of kept keys unchanged;
     post_select(freqs): frequencies renormalised over the kept keys (sum == 1); arguments unchanged"""
     n = st["n"]
-    expected = {int(i): b for i, b in st["expected"].items()}
+    expected = {int(i): b for i, b in st["expected"]}      # insertion order as listed (ascending or not)
     d = sym_counts(h, n)
     hist = h.call(H, "Histogram", d)
     h.call(H, "Histogram.post_select", hist, dict(expected))
@@ -196,11 +198,12 @@ def o5(h, st):
 def o6_structures(tier):
     sts = []
     for n in (2, 3):
-        for idx in subsets(n, 2):
-            if idx and len(idx) < n:
-                sts.append({"n": n, "idx": idx, "desired": None})
-                for bits in itertools.product("01", repeat=len(idx)):
-                    sts.append({"n": n, "idx": idx, "desired": "".join(bits)})
+        for idx0 in subsets(n, 2):
+            if idx0 and len(idx0) < n:
+                for idx in itertools.permutations(idx0):
+                    sts.append({"n": n, "idx": list(idx), "desired": None})
+                    for bits in itertools.product("01", repeat=len(idx)):
+                        sts.append({"n": n, "idx": list(idx), "desired": "".join(bits)})
     return sts
 
 
@@ -208,7 +211,7 @@ def o6_structures(tier):
           structures=o6_structures, native_samples=count_samples)
 def o6(h, st):
     """first output: marginal over `indices` (normalised); second: marginal over the others, or the conditional distribution given
-    desired_measurement; both carry total 1; input unchanged"""
+    desired_measurement (its j-th character is the outcome wanted on indices[j], whatever the order of `indices`); both carry total 1; input unchanged"""
     n, idx, desired = st["n"], st["idx"], st["desired"]
     d = sym_counts(h, n)
     tot = total(d)
@@ -218,7 +221,7 @@ def o6(h, st):
     others = [i for i in range(n) if i not in idx]
     exp_mid = {}
     for k, v in d.items():
-        kk = "".join(k[i] for i in idx)
+        kk = "".join(k[i] for i in sorted(idx))        # marginal keys keep the positions' order; desired_measurement[j] belongs to indices[j]
         exp_mid[kk] = exp_mid.get(kk, 0) + v
     h.check("mid-circuit keys", set(mid) == set(exp_mid))
     for kk in exp_mid:
@@ -325,6 +328,27 @@ def o8(h, st):
             _i._MODELS.pop(id(cls.rvs), None)
         else:
             _i._MODELS[id(cls.rvs)] = old
+    h.done()
+
+
+@contract("C18", "O8c.get_resampled_frequencies.key_mapping", targets=[(BS, "get_resampled_frequencies")], level="S",
+          structures=lambda tier: [{"keys": ks} for ks in (["0", "1"], ["01"], ["10", "01"], ["001", "110", "011"], ["100", "000", "111", "010"], ["0001", "1000", "0110"])])
+def o8c(h, st):
+    """the sampler OPAQUE: whichever samples it returns, a sample drawn for the input bitstring k is counted under that same bitstring k (same width, leading zeros
+    kept, not reversed), with frequency count / ncount; the sampler is given the input frequencies"""
+    ks = st["keys"]
+    w = list(range(1, len(ks) + 1))
+    fr = {k: w[j] / sum(w) for j, k in enumerate(ks)}
+    ncount = sum(w)
+    if not h.symbolic:
+        h.check("native: skipped (sampler stub only in the interpreter)", True)
+        h.done()
+        return
+    with opaque_sampler(lambda xk, pk, size, k: [x for j, x in enumerate(xk) for _ in range(int(round(pk[j] * sum(w))))][:size]) as calls:
+        out = h.call(BS, "get_resampled_frequencies", dict(fr), ncount)
+    h.check("sampler given the input frequencies", len(calls) >= 1 and sorted(float(x) for x in calls[0][1]) == sorted(fr.values()))
+    # with this draw, input key number j is sampled exactly w[j] times: the output must equal the input
+    h.check("samples counted under the bitstring they were drawn for", set(out) == set(fr) and all(abs(out[k] - fr[k]) < 1e-12 for k in fr), detail=f"{out} vs {fr}")
     h.done()
 
 
